@@ -95,7 +95,11 @@ def real_history(args, scratch):
         os.makedirs(KEY_DIR, exist_ok=True)
         os.chmod(KEY_DIR, 0o755)
         os.chmod(os.path.dirname(KEY_DIR), 0o755)
-    trace_opts = ["-e", "trace=mkdir,chown,fchown,chmod,fchmod,openat,rename,creat"] if args.get("strace") else None
+    trace_opts = ["-e", "trace=mkdir,chown,fchown,fchownat,lchown,chmod,fchmod,fchmodat,openat,rename,creat"] if args.get("strace") else None
+    if trace_opts and args.get("chown_fault"):
+        # fault: changing the owner of the key folder fails (agent without CAP_CHOWN, root-squashed or FUSE-backed folder): the folder
+        # must still be mode 0700 before the first key file appears in it
+        trace_opts += ["-e", "inject=chown,fchown,fchownat,lchown:error=EPERM"]
     agent = realagent.RealAgent(scratch, tag="a0", vdir=vdir, poll_s=1, strace=trace_opts, worker_threads=2)
     agents = [agent]
 
@@ -112,6 +116,8 @@ def real_history(args, scratch):
             taint.secrets[g] = ws.issued[g]
         if ws.latched and ws.latched in ws.issued:
             taint.secrets[ws.latched] = ws.issued[ws.latched]
+        for g, sec in ws.delivered_in_malformed_document.items():
+            taint.secrets[g] = sec
     try:
         wait(lambda: ws.latched is not None, 10)
         latched_sync()
@@ -146,6 +152,13 @@ def real_history(args, scratch):
                 latched_sync()
             elif step == "fault-acquire":
                 ws.fault("acquire", r.choice([{"kind": "status", "code": 500}, {"kind": "body", "body": '{"authorizationScheme":"Azure-HMAC-SHA256","guid":"not-a-key"}'}]))
+                ws.latched = None
+                wait(lambda: ws.latched is not None, 8)
+                latched_sync()
+            elif step == "fault-keydoc":
+                # a malformed key response that nevertheless carries a secret the host issued ("malformed key responses" in the
+                # quantifier): the guest cannot use it, and must not spread it either
+                ws.fault("acquire", {"kind": "mangled-key-document", "how": r.choice(["wrong-type", "missing-member", "truncated", "trailing", "extra-member"])})
                 ws.latched = None
                 wait(lambda: ws.latched is not None, 8)
                 latched_sync()
@@ -198,7 +211,7 @@ def real_history(args, scratch):
             restricted = False
             merged = common.merge_strace(agents[0].trace_path)
             for line in merged:
-                if "chmod(" in line and KEY_DIR in line and "0700" in line and "= 0" in line:
+                if ("chmod(" in line or "fchmodat(" in line) and KEY_DIR in line and "0700" in line and "= 0" in line:
                     restricted = True
                 if ("openat(" in line or "creat(" in line) and KEY_DIR + "/" in line and "O_CREAT" in line:
                     res["counts"]["key_file_creations_seen"] = res["counts"].get("key_file_creations_seen", 0) + 1
@@ -206,6 +219,8 @@ def real_history(args, scratch):
                         res["violations"].append(["key-file-created-before-directory-restricted", {"line": line.strip()}])
                     break
             res["counts"]["startup_order_checked"] = res["counts"].get("startup_order_checked", 0) + 1
+            if args.get("chown_fault"):
+                res["counts"]["chown_calls_failed_by_injection"] = res["counts"].get("chown_calls_failed_by_injection", 0) + sum(1 for line in merged if "chown" in line and "EPERM" in line and "INJECTED" in line)
         res["counts"]["secrets_latched"] = len(taint.secrets)
         res["counts"]["needles_searched"] = sum(len(needles(s)) for s in taint.secrets.values())
         res["counts"]["bytes_scanned"] = dict(taint.bytes_scanned)
@@ -334,15 +349,15 @@ def pipeline(args, scratch):
     return res
 
 
-STEPS = ["traffic", "provision", "fault-status", "rotate", "fault-acquire", "fault-attest", "disable-enable", "restart"]
+STEPS = ["traffic", "provision", "fault-status", "rotate", "fault-acquire", "fault-keydoc", "fault-attest", "disable-enable", "restart"]
 
 
 def run(tier, rep):
-    rep.coverage["rule"] = ("taint search: secrets = every key the mock host latched (attestation accepted); needles = the 64 hex digits in either case, every 16-digit window, the raw 32 bytes and halves, base64; "
+    rep.coverage["rule"] = ("taint search: secrets = every key the mock host latched (attestation accepted) and every key it delivered inside a malformed key document (wrong member type, missing/extra member, truncated, trailing bytes); needles = the 64 hex digits in either case, every 16-digit window, the raw 32 bytes and halves, base64; "
                             "haystack = all files under the log/event/status/provision locations and the whole scratch root, stdout, stderr, the captured /dev/console, every byte returned to local clients "
                             "(proxied responses, /provision answers, refusals), telemetry bodies at the mock and upstream request bytes; only files inside the key directory may contain a needle. histories: real binary "
                             "(latch, traffic, /provision queries, status/acquire/attest faults, rotation, disable/enable, restart) and a shim-hosted pipeline with logger/reader/status task on short intervals. plus "
-                            "strace of start-up: chmod 0700 of the key directory precedes the first O_CREAT below it. non-trivial = history with a latched key and a fault; distinct by script")
+                            "strace of start-up: chmod 0700 of the key directory precedes the first O_CREAT below it, also when every chown is made to fail with EPERM (strace fault injection). non-trivial = history with a latched key and a fault; distinct by script")
     r = common.rng("c12", tier)
     n = 6 if tier == "quick" else 60
     args = []
@@ -350,11 +365,13 @@ def run(tier, rep):
         script = ["traffic", "provision"] + [r.choice(STEPS) for _ in range(3 if tier == "quick" else 6)] + ["traffic"]
         if not any(s.startswith("fault") for s in script):
             script.insert(2, "fault-attest")
-        args.append({"shard": i, "tier": tier, "script": script, "strace": i % 2 == 0, "preexisting_dir": i % 3 == 1})
+        if i % 2 == 1 and "fault-keydoc" not in script:
+            script[2:2] = ["fault-keydoc", "provision"]
+        args.append({"shard": i, "tier": tier, "script": script, "strace": i % 2 == 0, "preexisting_dir": i % 3 == 1, "chown_fault": i % 4 == 0})
     for res in sandbox.run_many("vf.props.c12", "real_history", args, workers=8, timeout=600):
         rep.merge_worker(res)
     pargs = [{"shard": i, "tier": tier, "rounds": 8 if tier == "quick" else 40, "aborts": 4000 if tier == "quick" else 30000} for i in range(4 if tier == "quick" else 8)]
     for res in sandbox.run_many("vf.props.c12", "pipeline", pargs, workers=8, timeout=600):
         rep.merge_worker(res)
-    rep.assumptions += ["keys issued by the host but never latched (e.g. a malformed key document the agent could not attest) are not secrets of interest",
+    rep.assumptions += ["keys the mock host generated but never sent to the guest are not secrets of interest",
                         "process memory, core dumps and swap are not 'outputs' in the statement"]
